@@ -5,6 +5,9 @@ from hypothesis import strategies as st
 from . import cards
 
 HEAVYNESS = ["total", "light", "charm", "bottom", "top"]
+XS_NC = ["XSHERANC", "XSHERANCAVG", "F1", "g5"]
+XS_CC = ["XSHERACC", "XSCHORUSCC", "XSNUTEVCC", "XSNUTEVNU", "FW", "F1", "XSFPFCC"]
+XS_KINDS = sorted(set(XS_NC + XS_CC))
 
 
 def excluded(kind, process, scheme, pto, heavyness, tmc):
@@ -14,6 +17,8 @@ def excluded(kind, process, scheme, pto, heavyness, tmc):
     2. the open C16 finding "N3LO massive NC results are NaN" (shipped grids contain NaN): any
        identity between NaN tensors is meaningless, the region is explored by C16 itself.
     """
+    if kind in XS_KINDS:  # cross sections inherit the limits of the structure functions they combine
+        kind = "gL" if kind == "g5" else "F2"
     r = cards.unsupported(kind, process, pto, tmc, scheme)
     if r:
         return r
@@ -52,6 +57,8 @@ def config(
     for _ in range(50):
         kind = draw(st.sampled_from(kinds))
         process = draw(st.sampled_from(list(processes)))
+        if kind in XS_KINDS and kind not in (XS_CC if process == "CC" else XS_NC):
+            continue
         scheme = draw(st.sampled_from(list(schemes)))
         pto = draw(st.integers(0, max_pto))
         heavyness = draw(st.sampled_from(list(heavynesses)))
@@ -100,7 +107,10 @@ def config(
     for _ in range(npts):
         x, xcls = draw(cards.x_in_grid(grid, classes=x_classes))
         q2 = draw(cards.q2_values(*q2range))
-        kins.append({"x": x, "Q2": q2})
+        kin = {"x": x, "Q2": q2}
+        if kind in XS_KINDS:
+            kin["y"] = draw(st.sampled_from([1.0, 0.5, 1e-6]) | st.floats(0.01, 1.0).map(lambda y: round(y, 6)))
+        kins.append(kin)
     name = f"{kind}_{heavyness}"
     ob["observables"] = {name: kins}
     meta = {
